@@ -552,3 +552,47 @@ def resolved_text(fn_node, expr, depth=3):
         if not changed:
             break
     return norm(e)
+
+
+def run_block(stmts, env):
+    """outcome of a loop-free statement list whose tests the environment decides:
+    ("raise" | "return" | "fall", [normalised simple statements executed, in order])."""
+    from ..condeval import ev
+    done = []
+
+    def go(body):
+        for st in body:
+            if isinstance(st, ast.If):
+                r = go(st.body if ev(st.test, env) else st.orelse)
+                if r != "fall":
+                    return r
+            elif isinstance(st, ast.Raise):
+                done.append(norm(st))
+                return "raise"
+            elif isinstance(st, ast.Return):
+                done.append(norm(st))
+                return "return"
+            elif isinstance(st, (ast.Continue, ast.Break)):
+                done.append(norm(st))
+                return norm(st)
+            elif isinstance(st, ast.Pass):
+                continue
+            else:
+                done.append(norm(st))
+        return "fall"
+    return go(stmts), done
+
+
+def module_constants(ctx, modname, seed=None):
+    """module-level NAME = <expression condeval can evaluate> bindings (with `seed` operands bound)."""
+    from ..condeval import ev, Unknown
+    env = dict(seed or {})
+    for st in ctx.index.module(modname).tree.body:
+        if isinstance(st, ast.Assign) and len(st.targets) == 1 and isinstance(st.targets[0], ast.Name):
+            try:
+                v = ev(st.value, dict(env))
+                hash(v)
+                env[st.targets[0].id] = v
+            except (Unknown, TypeError, AttributeError, KeyError, IndexError):
+                continue
+    return env
